@@ -23,6 +23,7 @@ pub const REMOTES: &[&str] = &[
   "https://h.test/r2.js",
   "https://h.test/r3.d.ts",
   "https://h.test/r4.ts",
+  "http://p.test/r5.ts",
 ];
 const REDIR: &str = "https://h.test/redir";
 
@@ -98,7 +99,7 @@ pub fn spec() -> PropSpec<Case> {
         .boxed()
     },
     check,
-    cases: |tier| tier.pick(20_000, 400_000),
+    cases: |tier| tier.pick(40_000, 800_000),
     rule: "a remote entry module importing remote modules (static, dynamic, `type: \"text\"` asset, type-only, through a redirecting URL, a declaration file, with or without a UTF-8 BOM), jsr: requirements and https://jsr.io/ URLs of a generated registry (with or without embedded module information, with a cache image for the cache-only probe); lockfile image per remote URL and per version manifest in {absent, matching, mismatching}; registry files optionally served with tampered bytes; non-trivial = a resource with a known checksum is reached on a non-static path (dynamic, asset, redirect, registry sub-path, direct registry URL) or a resource is tampered / mismatching; distinct = distinct case JSON",
     assumptions: &[
       "the harness loader verifies LoadOptions::maybe_checksum against the bytes it serves (the documented loader responsibility)",
@@ -545,7 +546,8 @@ pub fn check(case: &Case, _tier: Tier) -> Outcome {
     let u = m.specifier().to_string();
     let is_mod = matches!(m, deno_graph::Module::Js(_) | deno_graph::Module::Json(_) | deno_graph::Module::Wasm(_));
     if is_mod
-      && u.starts_with("https://h.test/")
+      && (u.starts_with("https://") || u.starts_with("http://"))
+      && !u.starts_with(REGISTRY)
       && !u.ends_with(".d.ts")
       && !b.locker.remote.contains_key(&u)
       && !set_remote.contains_key(&u)
